@@ -614,9 +614,6 @@ pub fn checked_encode(t: &Tile, layout: u32) -> Result<(Vec<u8>, Vec<SemLayer>),
 		Err(e) => return Err(Fail::new("harness:mvt-codec-roundtrip", format!("harness codec: decode(encode(t)) fails (layout {layout}): {e}; tile {t:?}"))),
 	}
 	let sem = resolve(t).map_err(|e| Fail::new("harness:mvt-invalid-generated-tile", format!("generated tile is outside the domain: {e}")))?;
-	if t.layers.iter().any(|l| l.values.iter().any(|v| v.is_nan())) {
-		return Err(Fail::new("harness:mvt-invalid-generated-tile", "generated tile holds a NaN value".to_string()));
-	}
 	Ok((bytes, sem))
 }
 
@@ -644,11 +641,11 @@ pub fn value() -> impl Strategy<Value = Value> {
 		1 => short_string().prop_map(Value::Str),
 		1 => any::<bool>().prop_map(Value::Bool),
 		2 => prop_oneof![
-			Just(0.0f32), Just(-0.0f32), Just(1.5f32), Just(-2.25f32), Just(0.1f32), Just(f32::MAX), Just(f32::MIN_POSITIVE), Just(f32::INFINITY), Just(f32::NEG_INFINITY),
+			Just(0.0f32), Just(-0.0f32), Just(1.5f32), Just(-2.25f32), Just(0.1f32), Just(f32::MAX), Just(f32::MIN_POSITIVE), Just(f32::INFINITY), Just(f32::NEG_INFINITY), Just(f32::NAN),
 			any::<u32>().prop_map(f32::from_bits),
 		].prop_map(|f| Value::Float(f.to_bits())),
 		2 => prop_oneof![
-			Just(0.0f64), Just(-0.0f64), Just(1.5f64), Just(-2.25f64), Just(0.1f64), Just(1e300f64), Just(5e-324f64), Just(f64::INFINITY),
+			Just(0.0f64), Just(-0.0f64), Just(1.5f64), Just(-2.25f64), Just(0.1f64), Just(1e300f64), Just(5e-324f64), Just(f64::INFINITY), Just(f64::NAN),
 			any::<u64>().prop_map(f64::from_bits),
 		].prop_map(|f| Value::Double(f.to_bits())),
 		// the borders of the integer encodings
@@ -777,8 +774,9 @@ pub fn tile(min_layers: usize, max_layers: usize, max_features: usize) -> impl S
 }
 
 /// Keep the generated values inside the asserted domain, over all tiles of one case:
-/// * NaN property values are replaced by the infinity of the same sign (equality of NaN is
-///   ill-defined; the statements speak about property *sets*);
+/// * NaN property values are reduced to the one quiet NaN of their kind (0x7fc00000 /
+///   0x7ff8000000000000): "the value is NaN" is what a property set can say, payload bits of a
+///   NaN are not covered by the statements;
 /// * +0.0 and -0.0 of the same float kind never occur together in one case (they are equal
 ///   as numbers but differ in the bit pattern – which one a de-duplicating table keeps is
 ///   not covered by the statements): if both occur, -0.0 becomes +0.0.
@@ -799,14 +797,14 @@ pub fn sanitise(tiles: &mut [&mut Tile]) {
 			match v {
 				Value::Float(b) => {
 					if f32::from_bits(*b).is_nan() {
-						*b = (*b & 0x8000_0000) | 0x7f80_0000;
+						*b = 0x7fc0_0000;
 					} else if *b == 0x8000_0000 && pos32 {
 						*b = 0;
 					}
 				}
 				Value::Double(b) => {
 					if f64::from_bits(*b).is_nan() {
-						*b = (*b & 0x8000_0000_0000_0000) | 0x7ff0_0000_0000_0000;
+						*b = 0x7ff8_0000_0000_0000;
 					} else if *b == 0x8000_0000_0000_0000 && pos64 {
 						*b = 0;
 					}
